@@ -178,7 +178,7 @@ pub fn run(cx: &Cx) -> PropResult {
             }
         }
         // seeded random values
-        let mut r = runner(derive_seed(cx.seed, cx.prop, shard as u64, 0));
+        let mut r = runner(crate::run::tag_seed(derive_seed(cx.seed, cx.prop, shard as u64, 0), 0));
         for _ in 0..random_per_shard {
             let x = r.rng().next_u32();
             // spread over all widths: choose a bit length first
